@@ -50,7 +50,9 @@ class Gen:
         if self.chance(0.3):
             m['status'] = self.attr()
         if self.chance(0.3):
-            m['note'] = self.attr()
+            m['note'] = self.attr() if self.chance(0.8) else ''
+        if self.chance(0.1):
+            m[self.r.choice(DC)] = ''
         if self.chance(0.3):
             m['confidenceScore'] = self.r.choice(['0.9', '1.0', '0.25'])
         return m
@@ -345,7 +347,9 @@ def _a(v):
 def _meta(m):
     if not m:
         return ABSENT
-    d = {k: str(v) for k, v in m.items() if v not in (None, '')}
+    # (an attribute given with an empty value is still given: status="" is reported as
+    # {'status': ''}; only a metadata element with no attribute at all is absent)
+    d = {k: str(v) for k, v in m.items() if v is not None}
     return json.dumps(d, sort_keys=True, ensure_ascii=False) if d else ABSENT
 
 
